@@ -12,7 +12,9 @@ RULE = ("Hypothesis draws (search space: 1-6 parameters, bounds of any sign, sca
         "1-4 successive sample() calls, returned rows being appended to the history with generated losses as the calibrator "
         "does). Oracle: shape == (batch_size, d), every coordinate is an exact element of that parameter's grid array and lies "
         "within the declared bounds (+1e-7 end-point tolerance). "
-        "Non-trivial = the space has an off-grid upper bound or a non-unit scale, and for stateful samplers >= 2 calls.")
+        "Non-trivial = the space has an off-grid upper bound or a non-unit scale, and for stateful samplers >= 2 calls. "
+        "Sub-check 'model_arguments' (the consequence clause): whole calibrations with a recording model, also one that "
+        "scribbles on the array it receives; every vector handed to the model, for every ensemble member, must be on the grid.")
 ASSUMPTIONS = ["histories respect each sampler's documented needs (best-batch: >= batch_size rows; surrogates / CORS: >= 2 distinct "
                "rows and non-constant, not-all-zero losses - third-party fit preconditions); exceptions raised inside "
                "sklearn/scipy/xgboost on degenerate histories are counted as inconclusive, never as violations"]
@@ -115,10 +117,57 @@ def check_sampler(ctx: Ctx, case):
         losses = np.hstack((losses, nl))
 
 
+# ---- the consequence clause: what the user's model is actually simulated at ---------------------------------------------
+@st.composite
+def model_cases(draw):
+    from harness import calib
+
+    cfg = draw(calib.config(kinds=gen.CHEAP, max_d=4, max_len=4, max_bs=4, losses=("minkowski",),
+                            model_kinds=("gauss", "mutating", "mutating"), max_e=4))
+    cfg["loss"] = {"kind": "minkowski", "p": 2, "weights": None, "filters": None}
+    return {"cfg": cfg, "n": draw(st.integers(1, 6))}
+
+
+def check_model_args(ctx: Ctx, case):
+    """Every vector the model is invoked with - for every ensemble member - is a point of the declared grid, whatever the model
+    does to the array it receives."""
+    from harness import calib, models
+
+    sub = "model_arguments"
+    cfg = case["cfg"]
+    pure = models.get(cfg["model"], cfg["D"])
+    seen = []
+
+    def model(theta, n, seed):
+        seen.append(np.array(theta, dtype=float, copy=True))   # what the model was asked to simulate, before it touches it
+        return pure(theta, n, seed)
+    model.__name__ = pure.__name__
+    ctx.count(sub, case, cfg["E"] >= 2 and cfg["model"] == "mutating", [f"model={cfg['model']}", f"E={cfg['E']}"])
+    with guard(ctx, "C03/exception", sub, case):
+        cal = calib.build(cfg, model=model, n_jobs=1)
+        try:
+            with np.errstate(all="ignore"):
+                cal.calibrate(case["n"])
+        except Exception as e:  # noqa: BLE001
+            if third_party(e):
+                raise Inconclusive(f"third-party {type(e).__name__} inside a sampler") from e
+            raise
+    grid = cal.param_grid.param_grid
+    for i, th in enumerate(seen):
+        for j in range(len(grid)):
+            if th.shape != (len(grid),) or not np.isin(th[j], grid[j]):
+                ctx.fail("C03/model-simulated-off-grid", f"model invocation {i} (row {i // cfg['E']}, ensemble member "
+                         f"{i % cfg['E']}) was run at {th.tolist()}: coordinate {j} is not an element of the declared grid "
+                         f"[{grid[j][0]!r} .. {grid[j][-1]!r}]", sub, case)
+                return
+
+
 SUBCHECKS = {f"sampler_{k}": check_sampler for k in gen.ALL_KINDS}
+SUBCHECKS["model_arguments"] = check_model_args
 
 
 def run(ctx: Ctx):
     for kind in gen.ALL_KINDS:
         heavy = kind in ("gp", "rf", "cors")
         drive(ctx, f"sampler_{kind}", cases(kind), check_sampler, ctx.n(240 if heavy else 1600, 2400 if heavy else 16000))
+    drive(ctx, "model_arguments", model_cases(), check_model_args, ctx.n(320, 3200))
